@@ -68,7 +68,7 @@ type scriptCase struct {
 	Max      int64       `json:"max"`
 	Tbl      []int64     `json:"tbl"`
 	Dflt     int64       `json:"dflt"`
-	Cancel   int64       `json:"cancel"` // <0: none
+	Cancel   int64       `json:"cancel"` // instant the context ends; -1: never; another negative value: before the call
 	Deadline bool        `json:"deadline"`
 	Body     string      `json:"body"`            // N | R | O | G<k>
 	Manifest string      `json:"manifest"`        // "" | M (auth client) | m (plain client)
@@ -81,6 +81,8 @@ type scriptCase struct {
 	BigLen   int         `json:"big_len"`         // >0: data is generated (pattern), oracle only
 	Script   []behaviour `json:"script"`
 }
+
+func (c *scriptCase) hasCancel() bool { return c.Cancel != -1 }
 
 func (b behaviour) outString() string {
 	if sh := b.shape(); sh != nil {
@@ -125,7 +127,7 @@ func (c *scriptCase) data() []byte {
 
 func (c *scriptCase) modelLine() string {
 	cn := "-"
-	if c.Cancel >= 0 {
+	if c.hasCancel() {
 		cn = fmt.Sprintf("%d:c", c.Cancel)
 		if c.Deadline {
 			cn = fmt.Sprintf("%d:d", c.Cancel)
@@ -251,6 +253,7 @@ type attemptRec struct {
 	got  []byte
 	auth string // Authorization header of the request
 	method string
+	ctxEnded bool // the request's context had already ended when the request reached the server
 	beh  behaviour
 }
 
@@ -295,7 +298,13 @@ func (s *server) RoundTrip(req *http.Request) (*http.Response, error) {
 		}
 		req.Body.Close()
 	}
+	rec.ctxEnded = req.Context().Err() != nil
 	s.log = append(s.log, rec)
+	if rec.ctxEnded {
+		// like net/http's transport: nothing is done for a request whose context has ended
+		s.lastShape = nil
+		return nil, req.Context().Err()
+	}
 	if b.Lat > 0 {
 		tm := time.NewTimer(time.Duration(b.Lat))
 		select {
@@ -456,13 +465,17 @@ func execScript(t *testing.T, c *scriptCase) scriptObs {
 		}
 		ctx := context.Background()
 		var cancel context.CancelFunc = func() {}
-		if c.Cancel >= 0 {
+		if c.hasCancel() {
 			if c.Deadline {
 				ctx, cancel = context.WithDeadline(ctx, srv.start.Add(time.Duration(c.Cancel)))
 			} else {
 				ctx, cancel = context.WithCancel(ctx)
-				tm := time.AfterFunc(time.Duration(c.Cancel), cancel)
-				defer tm.Stop()
+				if c.Cancel < 0 {
+					cancel() // ended before the call
+				} else {
+					tm := time.AfterFunc(time.Duration(c.Cancel), cancel)
+					defer tm.Stop()
+				}
 			}
 		}
 		defer cancel()
@@ -663,7 +676,7 @@ func scriptCaseRun(t *testing.T, c *scriptCase) {
 	run.Count("body_" + c.Body[:1])
 	run.Count("result_" + strings.TrimRight(obs.res, "0123456789"))
 	run.Count(fmt.Sprintf("attempts_%d", len(obs.log)))
-	if c.Cancel >= 0 {
+	if c.hasCancel() {
 		run.Count("with_cancel")
 	}
 	if len(obs.log) > 1 {
@@ -709,7 +722,15 @@ func scriptCaseRun(t *testing.T, c *scriptCase) {
 			if !retryableTruth(c.Pred, send[i].beh) {
 				fail("nonretryable-retried", fmt.Sprintf("send %d attempt %d got %s and was followed by another attempt", si, i, outcomeTruth(c.Pred, send[i].beh)))
 			}
-			pause := send[i+1].t - (send[i].t + send[i].beh.Lat)
+			prevEnd := send[i].t + send[i].beh.Lat
+			if c.hasCancel() && c.Cancel < prevEnd {
+				// the context ended while the server was busy: the attempt was over at that instant
+				prevEnd = c.Cancel
+				if prevEnd < send[i].t {
+					prevEnd = send[i].t
+				}
+			}
+			pause := send[i+1].t - prevEnd
 			if c.Min <= c.Max && (pause < c.Min || pause > c.Max) {
 				fail("pause-bounds", fmt.Sprintf("send %d pause after attempt %d is %d, outside [%d,%d]", si, i, pause, c.Min, c.Max))
 			}
@@ -738,16 +759,22 @@ func scriptCaseRun(t *testing.T, c *scriptCase) {
 		}
 	}
 	// O6: cancellation
-	if c.Cancel >= 0 {
+	if c.hasCancel() {
+		endAt := c.Cancel // the instant the call must be over
+		if endAt < 0 {
+			endAt = 0
+		}
 		for i, r := range obs.log {
-			if r.t > c.Cancel {
-				fail("cancel-ignored", fmt.Sprintf("attempt %d started at %d, after the context ended at %d", i, r.t, c.Cancel))
+			// the first request of the call is the caller's; every later one is a re-send decided by the stack
+			if i > 0 && (r.t > c.Cancel || r.ctxEnded) {
+				fail("cancel-ignored", fmt.Sprintf("attempt %d started at %d on a context that ended at %d", i, r.t, c.Cancel))
+				break
 			}
 		}
-		if obs.end > c.Cancel || (obs.res == "ECTX" && obs.end != c.Cancel) {
+		if obs.end > endAt || (obs.res == "ECTX" && obs.end != endAt) {
 			fail("cancel-late", fmt.Sprintf("call returned at %d, the context ended at %d", obs.end, c.Cancel))
 		}
-		if obs.end == c.Cancel && obs.res != "ECTX" {
+		if obs.end == endAt && obs.res != "ECTX" {
 			fail("cancel-result", "call ended with the context but did not return its error")
 		}
 	}
@@ -1089,8 +1116,24 @@ func genScript(r *common.Rand, big bool) *scriptCase {
 		c.Script = append(c.Script, behaviour{Kind: "S", Code: 201, Read: -1})
 	}
 	if r.Chance(1, 4) {
-		// cancellation at an odd instant (all other instants are even: no ties), with pauses > 0
-		if c.Min <= 0 {
+		// cancellation at an odd instant (all other instants are even: the context never ends at
+		// the instant a timer of positive length fires); a third of the cases has zero-length
+		// pauses, where the timer and an already ended context are ready together
+		zero := r.Chance(1, 3)
+		if zero {
+			c.Min, c.Max = 0, int64(r.Intn(3))*2
+			for i := range c.Tbl {
+				c.Tbl[i] = 0
+			}
+			if r.Chance(2, 3) {
+				c.Dflt = 0
+			}
+			for i := range c.Script {
+				if c.Script[i].Lat == 0 && r.Chance(1, 2) {
+					c.Script[i].Lat = 2 + int64(r.Intn(20))*2 // give the context something to end in
+				}
+			}
+		} else if c.Min <= 0 {
 			c.Min = 2 + int64(r.Intn(100))*2
 		}
 		if c.Max < c.Min {
@@ -1121,7 +1164,10 @@ func genScript(r *common.Rand, big bool) *scriptCase {
 			span = 1 << 40
 		}
 		c.Cancel = int64(r.U64()%uint64(span+span/4))/2*2 + 1
-		c.Deadline = r.Chance(1, 3)
+		c.Deadline = r.Chance(1, 2)
+		if r.Chance(1, 10) {
+			c.Cancel = -3 // the context has ended before the call
+		}
 	}
 	return c
 }
@@ -1208,8 +1254,14 @@ func enumScripts(t *testing.T, maxLen int, allCancel bool) {
 						continue
 					}
 					c.Min, c.Max, c.Tbl, c.Dflt = 4, 20, []int64{2, 50}, 8
+					if len(prefix)%2 == 0 {
+						c.Min, c.Max, c.Tbl, c.Dflt = 0, 20, []int64{0, 0}, 0 // zero-length pauses
+					}
 					end := execScript(t, c).end
-					for tc := int64(1); tc <= end+3; tc += 2 {
+					for tc := int64(-3); tc <= end+3; tc += 2 {
+						if tc == -1 {
+							continue
+						}
 						cc := *c
 						cc.Cancel, cc.Deadline = tc, (tc/2)%2 == 1
 						scriptCaseRun(t, &cc)
